@@ -240,6 +240,10 @@ func c20StartDaemon() (*c20Daemon, error) {
 	}
 	d := &c20Daemon{keys: keys, log: &c20Log{}}
 	d.dir = workDir()
+	// relative paths in command lines ('.', host:path) must resolve inside the scratch area
+	cwd := filepath.Join(d.dir, "cwd")
+	os.MkdirAll(cwd, 0o755)
+	os.Chdir(cwd)
 	d.canary = filepath.Join(d.dir, "canary")
 	tm.Tree{tm.D("dir", 0o755, tm.Past), tm.File("dir/secret", []byte("canary secret"), 0o600, tm.Past), tm.File("top", []byte("canary top"), 0o644, tm.Past)}.Materialise(d.canary)
 	d.marker = filepath.Join(d.dir, "MARKER-EXECUTED")
